@@ -224,6 +224,9 @@ class Unit:
         b = Body(body_text, base_line)
         if 'R8' in allowed:
             b.r8_extend_map()
+            b.r8_extend_plain()
+        if 'R10' in allowed:
+            b.r10_map_collect_tail()
         if 'R9' in allowed:
             b.r9_filter_count()
         if 'R7' in allowed:
@@ -271,6 +274,9 @@ class Unit:
             b = Body(body_text, base_line)
             if 'R8' in allowed:
                 b.r8_extend_map()
+                b.r8_extend_plain()
+            if 'R10' in allowed:
+                b.r10_map_collect_tail()
             if 'R9' in allowed:
                 b.r9_filter_count()
             if 'R7' in allowed:
@@ -320,8 +326,13 @@ class Unit:
     def _scan_trusted(self):
         self.trusted = []
         g = self.generated
-        for m in re.finditer(r'assume_specification\s*(<[^\[]*>)?\s*\[\s*([^\]]+?)\s*\]', g):
-            self.trusted.append('assume_specification ' + re.sub(r'\s+', '', m.group(2)))
+        for m in re.finditer(r'assume_specification\s*(<[^\[]*>)?\s*\[', g):
+            # the path between the balanced [ ... ] (it may itself contain brackets: <[T]>::sort_unstable)
+            depth, k = 1, m.end()
+            while k < len(g) and depth > 0:
+                depth += 1 if g[k] == '[' else -1 if g[k] == ']' else 0
+                k += 1
+            self.trusted.append('assume_specification ' + re.sub(r'\s+', '', g[m.end():k - 1]))
         for m in re.finditer(r'\baxiom\s+fn\s+(\w+)', g):
             self.trusted.append('axiom ' + m.group(1))
         for m in re.finditer(r'#\[verifier::external_body\]\s*(?:#\[[^\]]*\]\s*)*(?:pub\s+)?(?:open\s+|closed\s+|uninterp\s+)?(?:spec\s+|proof\s+|exec\s+)?(fn|struct|enum)\s+(\w+)', g):
